@@ -180,6 +180,22 @@ def gen_wrap_streams(rng, count, end_styles=('marker', 'sized')):
         res.append(meta)
     return res
 
+def gen_sweep_streams(rng, props_list):
+    """.lzma streams (dict format of gen_lzma_streams) made of cell-sweep programs under the given properties: every probability
+    cell is used, in particular with pb = 4 (16 position states) and lp = 4"""
+    reqs, metas = [], []
+    for (lc, lp, pb) in props_list:
+        pbld = sweep_program(rng, 4096)
+        style = rng.choice(['marker', 'sized'])
+        reqs.append('ref_lzma lc=%d lp=%d pb=%d dict=4096 size=%s delta=0 prog=%s' % (lc, lp, pb, 'none' if style == 'marker' else str(pbld.n), pbld.text(style == 'marker')))
+        metas.append({'props': (lc, lp, pb), 'dict': 4096, 'style': style, 'n': pbld.n, 'kinds': dict(pbld.kinds), 'big': True, 'nsyms': len(pbld.syms), 'sweep': True})
+    res = []
+    for enc, meta in zip(ref_encode(reqs), metas):
+        if enc is None: raise InfraError('reference encoder rejected a sweep program')
+        meta = dict(meta); meta['bytes'], meta['out'] = enc; meta['ref'] = 'cell sweep'
+        res.append(meta)
+    return res
+
 def gen_costly_literal_streams(rng, count):
     """streams with a literal that costs about six input bytes: EVERY node on its path through the literal tree has been trained
     towards the opposite bit (phases of identical literals that differ from it in one bit, deepest node first, so that a later
@@ -229,12 +245,14 @@ def sweep_program(rng, window):
         for d_ in dists:
             if d_ > pbld.maxd(): continue
             pbld.match(d_, rng.choice([2, 3, 9, 10, 17, 18, 100, 273]) if rng.chance(1, 2) else rng.range(2, 40))
-            r = rng.below(6)
-            if r == 0: pbld.lit(rng.below(256))
-            elif r == 1 and pbld.reps[0] <= pbld.maxd(): pbld.shortrep()
-            elif r == 2:
-                cands = [i for i in range(4) if pbld.reps[i] <= pbld.maxd()]
-                if cands: pbld.rep(rng.choice(cands), pick_len(rng))
+            # 0-3 follow-up symbols, so that repeats follow repeats and short repeats (every automaton state 7..11 takes decisions)
+            for _f in range(rng.choice([0, 0, 1, 1, 2, 3])):
+                r = rng.below(3)
+                if r == 0: pbld.lit(rng.below(256))
+                elif r == 1 and pbld.reps[0] <= pbld.maxd(): pbld.shortrep()
+                elif r == 2:
+                    cands = [i for i in range(4) if pbld.reps[i] <= pbld.maxd()]
+                    if cands: pbld.rep(rng.choice(cands), pick_len(rng))
     return pbld
 
 # ------------------------------------------------------------------ C01
@@ -1186,7 +1204,7 @@ def run_C05(ck):
     streams = gen_lzma_streams(rng, 50 if quick else 400, big_every=25, max_syms=40) + gen_wrap_streams(rng, 2 if quick else 10, ('marker', 'sized', 'sized+marker'))
     cases = []
     costly = gen_costly_literal_streams(rng, 3 if quick else 20)
-    for s in streams + costly:
+    for s in streams + costly + gen_sweep_streams(rng, [(0, 0, 4)] if quick else [(0, 0, 4), (8, 4, 4), (1, 3, 2)]):
         for kind, data, opt in (lzma_variants(rng, s) if not s.get('costly_literal') else [('valid', s['bytes'], 'rfh')]):
             hows = ['whole', 'bytes', 'single', 'early', 'random', 'random'] if len(data) < 400 else ['whole', 'single', 'early', 'random']
             if s.get('costly_literal') or (len(data) <= 40 and rng.chance(1, 3)):
@@ -2060,7 +2078,7 @@ def run_C15(ck):
     rng = Rng(ck.seed).fork('C15')
     quick = ck.tier == 'quick'
     cases = []
-    for s in gen_lzma_streams(rng, 30 if quick else 250, big_every=10, end_styles=('marker', 'sized'), max_syms=60) + gen_wrap_streams(rng, 2 if quick else 12) + gen_costly_literal_streams(rng, 2 if quick else 12):
+    for s in gen_lzma_streams(rng, 30 if quick else 250, big_every=10, end_styles=('marker', 'sized'), max_syms=60) + gen_wrap_streams(rng, 2 if quick else 12) + gen_costly_literal_streams(rng, 2 if quick else 12) + gen_sweep_streams(rng, [(0, 0, 4), (2, 2, 3)] if quick else [(0, 0, 4), (2, 2, 3), (8, 4, 4), (3, 0, 2)]):
         b = s['bytes']
         size = 'none' if s['style'] == 'marker' else str(s['n'])
         opt, hdr = rng.choice([('rfh', 13), ('rfh', 13), ('rhp:' + size, 13), ('up:' + size, 5), ('up:' + size, 5)])
